@@ -248,41 +248,47 @@ func c20Small(c *Ctx, feds []*GenPkg) {
 
 	// (6) the previous body of a populator is looked up under the name it is emitted under
 	c.R.Rule("populator-readback-name", "federation.generateExplicitRequires: GetMethodBody/GetMethodComment are asked for the same name that is stored in Populator.FuncName (the name the template emits the function under)", 2)
-	if fn := c.W.Func(modPath("plugin/federation"), "*Federation.generateExplicitRequires"); fn == nil {
-		c.R.Fail("unresolved anchor: federation.(*Federation).generateExplicitRequires")
-	} else {
-		var nameVals []ssa.Value
-		var nameAddrs []*ssa.FieldAddr
-		for _, b := range fn.Blocks {
-			for _, in := range b.Instrs {
-				if fa, ok := in.(*ssa.FieldAddr); ok && fieldNameOf(fa) == "FuncName" {
-					nameAddrs = append(nameAddrs, fa)
-					for _, r := range an.Referrers(fa) {
-						if st, ok := r.(*ssa.Store); ok && st.Addr == ssa.Value(fa) {
-							nameVals = append(nameVals, st.Val)
+	{
+		n := 0
+		for _, fn := range c.W.FuncsIn(func(p string) bool { return p == modPath("plugin/federation") }) {
+			calls := an.CallsIn(fn, func(_ ssa.CallInstruction, ci an.CalleeInfo) bool {
+				return ci.Static != nil && (ci.Static.Name() == "GetMethodBody" || ci.Static.Name() == "GetMethodComment")
+			})
+			if len(calls) == 0 {
+				continue
+			}
+			// the name the populator is emitted under: what this function stores into a FuncName field
+			var nameVals []ssa.Value
+			for _, b := range fn.Blocks {
+				for _, in := range b.Instrs {
+					if fa, ok := in.(*ssa.FieldAddr); ok && fieldNameOf(fa) == "FuncName" {
+						for _, r := range an.Referrers(fa) {
+							if st, ok := r.(*ssa.Store); ok && st.Addr == ssa.Value(fa) {
+								nameVals = append(nameVals, st.Val)
+							}
 						}
 					}
 				}
 			}
-		}
-		n := 0
-		for _, call := range an.CallsIn(fn, func(_ ssa.CallInstruction, ci an.CalleeInfo) bool {
-			return ci.Static != nil && (ci.Static.Name() == "GetMethodBody" || ci.Static.Name() == "GetMethodComment")
-		}) {
-			args := call.Common().Args
-			arg := an.Strip(args[len(args)-1])
-			n++
-			ok := false
-			for _, v := range nameVals {
-				if v == arg || an.SameExpr(v, arg) {
+			for _, call := range calls {
+				if call.Parent() != fn {
+					continue
+				}
+				args := call.Common().Args
+				arg := an.Strip(args[len(args)-1])
+				n++
+				ok := false
+				for _, v := range nameVals {
+					if v == arg || an.SameExpr(v, arg) {
+						ok = true
+					}
+				}
+				if fa, isF := loadAddr(arg).(*ssa.FieldAddr); isF && fieldNameOf(fa) == "FuncName" {
 					ok = true
 				}
+				c.R.Check(ok && len(nameVals) > 0, shortFn(topFn(fn))+"/"+call.Common().StaticCallee().Name(), c.ipos(call), "asked for Populator.FuncName",
+					"the previous implementation is looked up under a name other than the one the populator is emitted under: it is never found, so regenerating replaces every hand-written populator by the panic stub and @requires fields are no longer populated")
 			}
-			if fa, isF := loadAddr(arg).(*ssa.FieldAddr); isF && fieldNameOf(fa) == "FuncName" {
-				ok = true
-			}
-			c.R.Check(ok && len(nameVals) > 0, "generateExplicitRequires/"+call.Common().StaticCallee().Name(), c.ipos(call), "asked for Populator.FuncName",
-				"the previous implementation is looked up under a name other than the one the populator is emitted under: it is never found, so regenerating replaces every hand-written populator by the panic stub and @requires fields are no longer populated")
 		}
 		if n < 2 {
 			c.R.Fail("populator-readback-name: %d read-back calls", n)
